@@ -337,3 +337,45 @@ func C01Large() {
 	sym.Assert(sym.And(b2.Header == m2.Header, sym.EqBytes(b2.Payload, m2.Payload)), "small/roundtrip")
 	sym.Reach("large-done")
 }
+
+// c01Lengths: EVERY payload length up to max (the length is a solver-enumerated value, one path per
+// length; first, middle and last payload bytes symbolic): the wire is exactly header+payload with the
+// announced size, and the message reads back identical in front of a second message.
+func c01Lengths(max int) {
+	sym.SetMaxMaterialise(1 << 18)
+	n := sym.Concrete(sym.Int("payload-length", 0, max))
+	payload := make([]byte, n)
+	if n > 0 {
+		payload[0], payload[n/2], payload[n-1] = sym.U8("first"), sym.U8("middle"), sym.U8("last")
+	}
+	h := c01SymHeader()
+	m := NewMessage(h, payload)
+	var buf bytes.Buffer
+	sym.Assert(m.Write(&buf) == nil, "lengths/write-ok")
+	sym.Assert(buf.Len() == 28+n, "lengths/wire-length")
+	tail := NewMessage(c01SymHeader(), []byte{sym.U8("tail")})
+	sym.Assert(tail.Write(&buf) == nil, "lengths/tail-write-ok")
+	wire := buf.Bytes()
+	if len(wire) != 28+n+29 {
+		sym.Fail("lengths/sequence-wire-length")
+		return
+	}
+	sym.Assert(sym.EqBytes(wire[:28], c01Layout(m.Header, payload)[:28]), "lengths/header-layout")
+	if n > 0 {
+		sym.Assert(sym.And(wire[28] == payload[0], sym.And(wire[28+n/2] == payload[n/2], wire[28+n-1] == payload[n-1])), "lengths/payload-on-wire")
+	}
+	r := bytes.NewReader(wire)
+	var b1, b2 Message
+	sym.Assert(b1.Read(r) == nil, "lengths/read-ok")
+	sym.Assert(r.Len() == 29, "lengths/consumed-exactly")
+	sym.Assert(b1.Header == m.Header && len(b1.Payload) == n, "lengths/read-back-shape")
+	if n > 0 && len(b1.Payload) == n {
+		sym.Assert(sym.And(b1.Payload[0] == payload[0], sym.And(b1.Payload[n/2] == payload[n/2], b1.Payload[n-1] == payload[n-1])), "lengths/read-back-payload")
+	}
+	sym.Assert(b2.Read(r) == nil, "lengths/tail-read-ok")
+	sym.Assert(sym.And(b2.Header == tail.Header, sym.EqBytes(b2.Payload, tail.Payload)), "lengths/tail-roundtrip")
+	sym.Reach("lengths-done")
+}
+
+func C01Lengths()     { c01Lengths(1100) }
+func C01LengthsDeep() { c01Lengths(8300) }
